@@ -220,3 +220,110 @@ func c17RetryPolicyVerbatim(c *Ctx) {
 		c.Unresolved("C17.R13", fmt.Sprintf("stores into retryPolicyImpl in NewRouteRuleImplBase (found %d)", n))
 	}
 }
+
+// c17HostRewriteReachesHTTP1Upstream (R14): the host a route rewrote is the Host of the HTTP/1.1 upstream request.
+// The route's host rewrite is stored in the `authority` variable (types.VarIstioHeaderHost) by finalizeRequestHeaders; the
+// HTTP/1 client stream turns the request variables back into the request in FillRequestHeadersFromCtxVar. Clause: the value
+// read from that variable is handed to the Host of the request (SetHost, directly or as the result of a helper that feeds
+// SetHost) under no other condition than "the variable was read successfully and is not empty". Any further condition -
+// e.g. "differs from what the header map carries now" - is a condition on something the *previous* attempt left behind:
+// the proxy reuses header map and variables for every try, so attempts 2, 4, ... go out with the downstream's Host.
+func c17HostRewriteReachesHTTP1Upstream(c *Ctx) {
+	pkg := "pkg/stream/http"
+	if c.TypesPkg(pkg) == nil {
+		c.Unresolved("C17.R14", "package "+pkg)
+		return
+	}
+	n := 0
+	for _, fn := range c.PkgFuncs(pkg) {
+		forEachInstr(fn, false, func(f *ssa.Function, in ssa.Instruction) {
+			call, ok := in.(*ssa.Call)
+			if !ok || !strings.HasSuffix(calleeName(call.Common()), "variable.GetString") || len(call.Common().Args) != 2 {
+				return
+			}
+			if s, isK := constStringVal(stripIface(call.Common().Args[1])); !isK || s != "authority" {
+				return
+			}
+			// only the request-building side (the function, or its callers, sets the Host)
+			var val, errv ssa.Value
+			for _, r := range refs(call) {
+				if ex, ok := r.(*ssa.Extract); ok {
+					if ex.Index == 0 {
+						val = ex
+					} else {
+						errv = ex
+					}
+				}
+			}
+			if val == nil {
+				return
+			}
+			// where the value is applied: SetHost(val), a phi edge carrying val, or a return of val
+			type app struct {
+				at    token.Pos
+				block *ssa.BasicBlock
+				edge  []Guard
+			}
+			var apps []app
+			for _, r := range refs(val) {
+				switch x := r.(type) {
+				case *ssa.Call:
+					if methodName(x.Common()) == "SetHost" {
+						apps = append(apps, app{x.Pos(), x.Block(), nil})
+					}
+				case *ssa.Phi:
+					for i, e := range x.Edges {
+						if e != val {
+							continue
+						}
+						pred := x.Block().Preds[i]
+						var eg []Guard
+						if ifi, ok := pred.Instrs[len(pred.Instrs)-1].(*ssa.If); ok && pred.Succs[0] != pred.Succs[1] {
+							eg = normGuard(Guard{Cond: ifi.Cond, True: pred.Succs[0] == x.Block(), If: ifi})
+						}
+						apps = append(apps, app{x.Pos(), pred, eg})
+					}
+				case *ssa.Return:
+					apps = append(apps, app{nearestPos(x), x.Block(), nil})
+				}
+			}
+			if len(apps) == 0 {
+				return
+			}
+			for _, a := range apps {
+				n++
+				extra := ""
+				gs := append(guardsAt(a.block), a.edge...)
+				for _, g := range gs {
+					// only conditions evaluated after the variable was read
+					if !instrDominates(call, g.If) {
+						continue
+					}
+					bo, isBO := g.Cond.(*ssa.BinOp)
+					okCond := false
+					if isBO {
+						switch {
+						case (bo.X == errv && isNilConst(bo.Y)) || (bo.Y == errv && isNilConst(bo.X)):
+							okCond = true
+						case bo.X == val || bo.Y == val:
+							other := bo.Y
+							if bo.Y == val {
+								other = bo.X
+							}
+							if s, isK := constStringVal(other); isK && s == "" {
+								okCond = true
+							}
+						}
+					}
+					if !okCond {
+						extra = "the condition at " + shortPos(c, nearestPos(g.If))
+					}
+				}
+				c.Check("C17.R14", fmt.Sprintf("%s:host-rewrite-applied-unconditionally#%d", funcKey(f), n), a.at, extra == "", "applied whenever the authority variable is set", "the rewritten host (authority variable) reaches the Host of the HTTP/1.1 upstream request only under a further condition ("+extra+"): header map and variables are reused for every try, so what the condition looks at was left behind by the previous attempt - retried requests go out with the downstream's Host instead of the configured host_rewrite")
+			}
+		})
+	}
+	if n < 1 {
+		c.Unresolved("C17.R14", "the place where the authority variable becomes the Host of the HTTP/1 upstream request")
+	}
+}
